@@ -25,6 +25,29 @@ func CommandLine(s []string) {
 	}
 }
 
+// CommandLineArgs takes in a command and its arguments (argv[]) as a slice and
+// escapes them so that murex's parser reads every element back as exactly one
+// parameter with the same value. It is CommandLine plus the remaining tokens
+// the parser acts upon (`;` `&` `~` `%` `{` `}` `=` and the backtick) and an
+// explicit empty string for empty arguments.
+func CommandLineArgs(s []string) {
+	CommandLine(s)
+	for i := range s {
+		if s[i] == "" {
+			s[i] = "''"
+			continue
+		}
+		s[i] = strings.Replace(s[i], `;`, `\;`, -1)
+		s[i] = strings.Replace(s[i], `&`, `\&`, -1)
+		s[i] = strings.Replace(s[i], `~`, `\~`, -1)
+		s[i] = strings.Replace(s[i], `%`, `\%`, -1)
+		s[i] = strings.Replace(s[i], `{`, `\{`, -1)
+		s[i] = strings.Replace(s[i], `}`, `\}`, -1)
+		s[i] = strings.Replace(s[i], `=`, `\=`, -1)
+		s[i] = strings.Replace(s[i], "`", "\\`", -1)
+	}
+}
+
 // Table takes in terminal-rendered tables cells and escapes the contents
 func Table(s []string) {
 	for i := range s {
